@@ -33,7 +33,8 @@ META = {
              "inside tokenize-related code at overlapping times (a thread blocked on tokenize_lock)"),
     "abstract_measure": "distinct numbers of context switches per run (bucketed)",
     "gates": {"quick": {"lock_contended": 1500, "trace_preempt": 20000, "exploding_tokenize": 500,
-                        "fresh_interpreter": 8, "nested_call_recursive_payload": 40},
+                        "fresh_interpreter": 8, "nested_call_recursive_payload": 40,
+                        "equal_sets_iterate_differently": 100},
               "thorough": {"lock_contended": 1500}},
     "anchors": ["dask/tokenize.py", "dask/hashing.py"],
     "real": ["dask.tokenize.tokenize / _tokenize / normalize_* / _SEEN / _ENSURE_DETERMINISTIC",
@@ -140,6 +141,19 @@ def run_one(tape, cfg):
             out.violate("token_differs_for_copy", f"value {s}: deep copy / pickle round trip has another "
                                                   f"token than the original", kind=s[0])
             return out
+    # equal values whose sets / dicts were filled in the opposite order (another iteration order)
+    for s, b in zip(specs, baseline):
+        v3 = tokvals.build(s, rev=True)
+        if s[0] in ("fsset", "tupset"):
+            out.probe("set_of_containers")
+            if list(v3) != list(tokvals.build(s)):
+                out.probe("equal_sets_iterate_differently")
+        if tokenize(v3) != b:
+            out.violate("token_differs_for_equal_value",
+                        f"value {s}: an equal value built in the opposite insertion order has another token",
+                        kind=s[0])
+            return out
+    del tokvals.NestedTokenizer.instances[:]
     problems = []
     saved_lock = dt.tokenize_lock
     dt.tokenize_lock = SimRLock()
